@@ -8,9 +8,11 @@ import (
 	"crypto/elliptic"
 	"crypto/rand"
 	"crypto/rsa"
+	"crypto/sha256"
 	"crypto/x509"
 	"encoding/pem"
 	"fmt"
+	"math/big"
 	"os"
 	"path/filepath"
 )
@@ -67,6 +69,61 @@ func main() {
 		pub, priv, _ := ed25519.GenerateKey(rand.Reader)
 		w(dir, name+".pkcs8.pem", "PRIVATE KEY", must(x509.MarshalPKCS8PrivateKey(priv)))
 		w(dir, name+".pub.pem", "PUBLIC KEY", must(x509.MarshalPKIXPublicKey(pub)))
+	}
+	// keys whose raw material has a boundary byte value at one end (zero, blank, line feed): found by a
+	// deterministic search over seeds sha256("verif-edge-<i>"), so the pool is reproducible
+	edge := []struct {
+		name string
+		ok   func(seed []byte, pub ed25519.PublicKey) bool
+	}{
+		{"edz0", func(s []byte, p ed25519.PublicKey) bool { return p[0] == 0x00 }},
+		{"edz1", func(s []byte, p ed25519.PublicKey) bool { return p[31] == 0x00 }},
+		{"edw0", func(s []byte, p ed25519.PublicKey) bool { return p[0] == 0x20 }},
+		{"edw1", func(s []byte, p ed25519.PublicKey) bool { return p[31] == 0x0a }},
+		{"edsw", func(s []byte, p ed25519.PublicKey) bool { return s[0] == 0x0a && p[0] > 0x20 && p[31] > 0x20 }},
+		{"edsz", func(s []byte, p ed25519.PublicKey) bool { return s[0] == 0x00 && s[31] == 0x20 }},
+	}
+	for _, e := range edge {
+		if _, err := os.Stat(filepath.Join(dir, e.name+".pkcs8.pem")); err == nil {
+			continue
+		}
+		for i := 0; ; i++ {
+			seed := sha256.Sum256([]byte(fmt.Sprintf("verif-edge-%d", i)))
+			priv := ed25519.NewKeyFromSeed(seed[:])
+			pub := priv.Public().(ed25519.PublicKey)
+			if e.ok(seed[:], pub) {
+				w(dir, e.name+".pkcs8.pem", "PRIVATE KEY", must(x509.MarshalPKCS8PrivateKey(priv)))
+				w(dir, e.name+".pub.pem", "PUBLIC KEY", must(x509.MarshalPKIXPublicKey(pub)))
+				break
+			}
+		}
+	}
+	// P-256 keys whose public X coordinate / private scalar starts with a zero byte
+	for _, e := range []struct {
+		name string
+		ok   func(k *ecdsa.PrivateKey) bool
+	}{
+		{"p256xz", func(k *ecdsa.PrivateKey) bool { return k.X.BitLen() <= 248 }},
+		{"p256dz", func(k *ecdsa.PrivateKey) bool { return k.D.BitLen() <= 248 && k.X.BitLen() > 248 }},
+	} {
+		if _, err := os.Stat(filepath.Join(dir, e.name+".pkcs8.pem")); err == nil {
+			continue
+		}
+		for i := 0; ; i++ {
+			h := sha256.Sum256([]byte(fmt.Sprintf("verif-edge-ec-%d", i)))
+			d := new(big.Int).SetBytes(h[:])
+			d.Mod(d, new(big.Int).Sub(elliptic.P256().Params().N, big.NewInt(1)))
+			d.Add(d, big.NewInt(1))
+			k := &ecdsa.PrivateKey{D: d}
+			k.Curve = elliptic.P256()
+			k.X, k.Y = elliptic.P256().ScalarBaseMult(d.Bytes())
+			if e.ok(k) {
+				w(dir, e.name+".pkcs8.pem", "PRIVATE KEY", must(x509.MarshalPKCS8PrivateKey(k)))
+				w(dir, e.name+".sec1.pem", "EC PRIVATE KEY", must(x509.MarshalECPrivateKey(k)))
+				w(dir, e.name+".pub.pem", "PUBLIC KEY", must(x509.MarshalPKIXPublicKey(&k.PublicKey)))
+				break
+			}
+		}
 	}
 	fmt.Println("key pool written to", dir)
 }
